@@ -32,9 +32,8 @@ CLAIMED['C04'] = dict(
         'with the parent dt and properties. The model is tied to the code by an oracle-instantiated in-Coq correspondence: the '
         'implementation own member-level answers are combined by the model and compared with the implementation multi-level answer, '
         'with the deciding member at every position.',
-   note='Trusted: Coq kernel + vm_compute; the hand statement that ShapeM mirrors the loops (checked by correspondence only, no translator '
-        'for loops); harness. Member-level truth is C01/C02. No axioms.',
-   technique='Coq proof (loops = existsb/forallb, permutation invariance, min/max folds) + oracle-instantiated in-Coq correspondence',
+   note='Trusted: Coq kernel + vm_compute; the hand statement that ShapeM mirrors the loops (checked by the translator tie and the correspondence); harness. Member-level truth is C01/C02. No axioms.',
+   technique='Coq proof (loops = existsb/forallb, permutation invariance, min/max folds) + translator tie for the member loops (13 GenEq lemmas) + oracle-instantiated in-Coq correspondence',
    ref='5/C04')
 CLAIMED['C09'] = dict(
    text='PARTIAL. Machine-checked proof (all vertex lists, all integers, every distance function) that vertex-shape bounds are exactly the '
@@ -47,7 +46,7 @@ CLAIMED['C09'] = dict(
         'bounds (finding D21 for wedges across +-180), 1e-6 enclosure for circle/ellipse/ring circles.',
    note='Trusted: Coq kernel + vm_compute; hand statement that BoundsM mirrors the min/max and max-distance expressions (checked by '
         'correspondence); harness; IEEE doubles compared through their order-preserving bit image. No axioms.',
-   technique='Coq proof (min/max folds, farthest-point circle for an abstract metric) + in-Coq correspondence; fixed corpora for unclaimed clauses',
+   technique='Coq proof (min/max folds, farthest-point circle for an abstract metric) + in-Coq correspondence; fixed corpora for unclaimed clauses + translator tie (bounds, circumscribing rectangles, centroid+farthest-vertex circles: 18 GenEq lemmas)',
    ref='5/C09')
 CLAIMED['C01'] = dict(
    text='Machine-checked proof over arbitrary integer rings (hence rational coordinates, by scaling) that the model of _point_in_polygon / '
@@ -57,10 +56,10 @@ CLAIMED['C01'] = dict(
         'bounding-box prefilter never changes an answer. The box-hole boundary clause is REFUTED (finding D31). Tied to the code by an in-Coq '
         'correspondence on exhaustive grid / half-grid queries (all rotations and windings in thorough), random star polygons, direct '
         'find_line_intersection cases, plus an independent exact Fraction even-odd oracle on every query.',
-   note='Trusted: Coq kernel + vm_compute; hand statement that GeomM mirrors the loops (checked by correspondence); harness. Not proved: polygonal Jordan '
+   note='Trusted: Coq kernel + vm_compute; hand statement that GeomM mirrors the loops (checked by the translator tie, DESIGN 9.6, and by correspondence); harness. Not proved: polygonal Jordan '
         '(even-odd interior of a simple ring = topological interior); IEEE rounding / 1e-10 snapping off the exact grids; antimeridian-spanning shapes '
         '(excluded by the property). No axioms.',
-   technique='Coq proof (exact-arithmetic ray cast = even-odd crossing number; parity lemma; rotation/reversal invariance) + in-Coq correspondence on exhaustive grids',
+   technique='Coq proof (exact-arithmetic ray cast = even-odd crossing number; parity lemma; rotation/reversal invariance) + in-Coq correspondence on exhaustive grids + translator tie (find_line_intersection with exact quotients proved equal to the cross-multiplied model, ray-cast loop, polygon/box membership: 21 GenEq lemmas)',
    ref='5/C01, 9')
 CLAIMED['C02'] = dict(
    text='PARTIAL. Machine-checked proof that the sweep line (do_edges_intersect, modelled with its event ordering, active set and same-group shortcut) returns '
@@ -72,7 +71,7 @@ CLAIMED['C02'] = dict(
         'dependence of the first-vertex fallback for collinear paths (D29). The converse of set truth is not claimed (polygonal Jordan).',
    note='Trusted: Coq kernel + vm_compute; SweepM/PairM mirror the code (checked by correspondence: direct do_edges_intersect stream, all ordered pairs of a 70-shape '
         'library x dt combinations x rotations, random valid pairs); GeomM tie from C01. IEEE rounding and antimeridian edges outside the model. No axioms.',
-   technique='Coq proof (sweep invariant = brute force; symmetry; sub-list spec) + in-Coq correspondence + Python law oracle; closed-set reference on a fixed corpus only',
+   technique='Coq proof (sweep invariant = brute force; symmetry; sub-list spec) + in-Coq correspondence + Python law oracle; closed-set reference on a fixed corpus only + translator tie (sweep: events, ordering, active set, loop body; 20 pair specialisations; is_sub_list, do_bounds_overlap)',
    ref='5/C02, 9')
 CLAIMED['C18'] = dict(
    text='Machine-checked proof that each collection filter is List.filter of the per-shape predicate the code uses (argument order pinned: filter_contains uses '
@@ -81,9 +80,9 @@ CLAIMED['C18'] = dict(
         'bounds, and that len/iter/in/+/[] behave as the underlying list; per-shape predicates universally quantified. Tied to the code by an in-Coq '
         'correspondence instantiating the predicates with the implementation own per-member answers on FeatureCollections and Tracks of 0..12 mixed shapes, '
         'with asymmetric containment pairs and deep snapshots of the source before/after.',
-   note='Trusted: Coq kernel + vm_compute; FilterM mirrors the comprehensions (correspondence only); harness. Hull containment is relative to C10 (explicit premise). '
+   note='Trusted: Coq kernel + vm_compute; FilterM mirrors the comprehensions (translator tie, DESIGN 9.6, + correspondence); harness. Hull containment is relative to C10 (explicit premise). '
         'Source non-mutation is observed by the correspondence, not a theorem (the model is pure). No axioms.',
-   technique='Coq proof (filters = List.filter, sublist, min/max) + oracle-instantiated in-Coq correspondence',
+   technique='Coq proof (filters = List.filter, sublist, min/max) + oracle-instantiated in-Coq correspondence + translator tie (the five filters: 9 GenEq lemmas)',
    ref='5/C18, 9')
 CLAIMED['C17'] = dict(
    text='Machine-checked proof, for all item lists, that the Track model (stable insertion sort by start and every operation) keeps tracks chronological after '
@@ -93,9 +92,9 @@ CLAIMED['C17'] = dict(
         'previously KEPT one (inductive greedy characterisation, unique), and that convolution leaves one shape per distinct timestamp with the same timestamp set. '
         'Tied to the code by an in-Coq correspondence (all permutations of multisets up to 5 items, slice bounds at/1 us before/after every event, speed limits '
         'at and one ulp either side of every pairwise speed, chains of up to 6 operations), distances and merged positions instantiated from the implementation.',
-   note='Trusted: Coq kernel + vm_compute; CollM mirrors collections.py (correspondence only, no translator); harness. Outside the model: float rounding of dx/dt '
+   note='Trusted: Coq kernel + vm_compute; CollM mirrors collections.py (translator tie, DESIGN 9.6, + correspondence); harness. Outside the model: float rounding of dx/dt '
         '(near-ties excluded and counted), NaN speeds, datetime overflow of max(end)+1s. No axioms.',
-   technique='Coq proof (stable sort, filter spec, inductive greedy characterisation) + in-Coq correspondence on operation histories + Python oracle',
+   technique='Coq proof (stable sort, filter spec, inductive greedy characterisation) + in-Coq correspondence on operation histories + Python oracle + translator tie (Track.__init__, __add__, __getitem__, filters, convolve, speed filter: 32 GenEq lemmas)',
    ref='5/C17, 9')
 CLAIMED['C10'] = dict(
    text='Machine-checked proof over all finite lists of integer points (hence rational, by scaling) that the model of Andrew monotone chain (dedup + lexicographic '
@@ -105,8 +104,8 @@ CLAIMED['C10'] = dict(
         'entry points = hull of the concatenated member vertices. Tied to the code by an in-Coq correspondence through the public multi-shape / collection entry '
         'points on integer and dyadic multi-scale frames (2^0 .. 2^-100, several bases; exactness checked per case), all permutations of small sets, plus an '
         'exact Fraction oracle of every clause on the implementation output.',
-   note='Trusted: Coq kernel + vm_compute; HullM mirrors convex_hull (correspondence only); harness exactness guard. IEEE rounding on non-dyadic inputs outside the model. No axioms.',
-   technique='Coq proof (stack invariant of the pop loop, orientation lemmas by nia, sorted-dedup uniqueness) + in-Coq multi-scale correspondence',
+   note='Trusted: Coq kernel + vm_compute; HullM mirrors convex_hull (translator tie, DESIGN 9.6, + correspondence); harness exactness guard. IEEE rounding on non-dyadic inputs outside the model. No axioms.',
+   technique='Coq proof (stack invariant of the pop loop, orientation lemmas by nia, sorted-dedup uniqueness) + in-Coq multi-scale correspondence + translator tie (convex_hull incl. both monotone-chain loops, callers: 32 GenEq lemmas)',
    ref='5/C10, 9')
 CLAIMED['C15'] = dict(
    text='Machine-checked proof about an executable model of every __eq__, every __hash__ key, the GeoPolygon constructor, copy() and pickle: equality is reflexive, '
@@ -116,9 +115,9 @@ CLAIMED['C15'] = dict(
         'unequal; copy and pickle give equal, well-formed values whose object, properties (nested) and dt cells are fresh and isolated under writes (shared hole '
         'objects of copy() stated explicitly). Tied to the code by an in-Coq correspondence over all 11 kinds (all rotations x windings, all member permutations, '
         'one-field edits, is-identity and mutation-isolation observations, usability after pickle) plus a Python law oracle.',
-   note='Trusted: Coq kernel + vm_compute; ValueM mirrors the code (correspondence only); harness; Python hash is a function of the modelled key (no collision claim). '
+   note='Trusted: Coq kernel + vm_compute; ValueM mirrors the code (translator tie, DESIGN 9.6, + correspondence); harness; Python hash is a function of the modelled key (no collision claim). '
         'Usable-after-pickle is observed, not proved. Curved bounding coordinates are a Section variable. No axioms.',
-   technique='Coq proof (cyclic-list algebra, Python-set semantics with pigeonhole, abstract-location heap for copy/pickle) + in-Coq correspondence + Python law oracle',
+   technique='Coq proof (cyclic-list algebra, Python-set semantics with pigeonhole, abstract-location heap for copy/pickle) + in-Coq correspondence + Python law oracle + translator tie (every __eq__, __hash__ key, GeoPolygon.__init__, copy(): 80 GenEq lemmas)',
    ref='5/C15, 9')
 CLAIMED['C16'] = dict(
    text='Machine-checked proof over ANY finite operation list that, in the state-machine model (geometry, holes, dt, properties, cache cells), reads and to_polygon '
@@ -127,9 +126,9 @@ CLAIMED['C16'] = dict(
         'in-place result on a copy, and each update does exactly what is documented. Tied to the code by an in-Coq correspondence on operation histories (11 kinds, '
         '1..8 ops, state compared after every op), bit-identical comparison of 10 observations with freshly constructed implementation objects, mutation of returned '
         'objects not visible in the receiver; failing histories are shrunk.',
-   note='Trusted: Coq kernel + vm_compute; StateM mirrors _base.py/structures.py (correspondence only); geometry functions are Section variables; member/hole caches not '
+   note='Trusted: Coq kernel + vm_compute; StateM mirrors _base.py/structures.py (translator tie, DESIGN 9.6, + correspondence); geometry functions are Section variables; member/hole caches not '
         'modelled; arguments are values in the model (their integrity is observed by the harness). No axioms.',
-   technique='Coq proof (coherence invariant by induction over operation lists) + in-Coq correspondence on histories + fresh-object differential',
+   technique='Coq proof (coherence invariant by induction over operation lists) + in-Coq correspondence on histories + fresh-object differential + translator tie (mutators, getters, copy(): 17 GenEq lemmas)',
    ref='5/C16, 9')
 CLAIMED['C07'] = dict(
    text='Machine-checked real-analysis proofs (Coq Reals) about the formulas the code contains: haversine distance is symmetric, zero on identical points, in '
@@ -165,7 +164,7 @@ CLAIMED['C11'] = dict(
         'GenEq lemmas and an in-Coq correspondence exhaustive over all 9 584 cells to depth 3/2/2 plus random coordinates at lengths 1..12 under all three bases interleaved.',
    note='Trusted: Coq kernel + vm_compute; gen_geohash.py table dump; harness. Float = rational agreement rests on exact dyadic bisection (length <= 12..22 depending on base; '
         'observed, not proved). No axioms.',
-   technique='Coq proof (induction on the bit schedule, generic in the table) + regenerated-table tie + exhaustive in-Coq correspondence',
+   technique='Coq proof (induction on the bit schedule, generic in the table) + regenerated-table tie + exhaustive in-Coq correspondence + translator tie for the codec functions',
    ref='5/C11, 9')
 CLAIMED['C12'] = dict(
    text='PARTIAL. Machine-checked proof, for every cell type, neighbour function, per-cell test and queue order, that the flood fill returns exactly the cells reachable '
@@ -175,8 +174,8 @@ CLAIMED['C12'] = dict(
         'are connected to the start cell: 8-connectivity of the cells touched by a shape and geometric truth of the per-cell box test are NOT proved. Tied to the code '
         'by an in-Coq correspondence that instantiates the per-cell test with the implementation own answers over an enlarged window and compares with the model flood '
         'and the full touched set. H3 clauses: no theorem, fixed corpus only. Finding D12b (east column at lon 180).',
-   note='Trusted: Coq kernel + vm_compute; FloodM mirrors the loop (correspondence only); C11 codec model for neighbours; harness. No axioms.',
-   technique='Coq proof (BFS reachability invariants, group-by specification) + oracle-instantiated in-Coq correspondence; fixed corpus for H3',
+   note='Trusted: Coq kernel + vm_compute; FloodM mirrors the loop (translator tie, DESIGN 9.6, + correspondence); C11 codec model for neighbours; harness. No axioms.',
+   technique='Coq proof (BFS reachability invariants, group-by specification) + oracle-instantiated in-Coq correspondence; fixed corpus for H3 + translator tie (flood loops as a simulation, neighbours, group-by: 37 GenEq lemmas)',
    ref='5/C12, 9')
 CLAIMED['C08'] = dict(
    text='Machine-checked proof over all rational longitude/latitude (no bound) that the model of Coordinate.__init__ (pole-reflection loop, antimeridian loop, 180 -> -180) '
@@ -187,10 +186,10 @@ CLAIMED['C08'] = dict(
         'not depend on the longitude). Tied to the code by an in-Coq correspondence on ints, floats and numeric strings (multiples of 90/180/360, +-0.0, one-ulp neighbours '
         'of the range ends, dyadics to +-1e5): exact agreement wherever fractions.Fraction shows the float loops exact, 4 ulp otherwise, with the proved range and idempotence '
         'facts demanded of the implementation output inside Coq; xyz round trip observed numerically.',
-   note='Trusted: Coq kernel + vm_compute; CoordM mirrors the loops (correspondence only); harness exactness guard. Real-number part: Coq Reals axioms '
+   note='Trusted: Coq kernel + vm_compute; CoordM mirrors the loops (translator tie, DESIGN 9.6, + correspondence); harness exactness guard. Real-number part: Coq Reals axioms '
         '(ClassicalDedekindReals.sig_forall_dec, sig_not_dec, functional_extensionality_dep) as printed per theorem. Not proved: float rounding inside the loops for non-dyadic '
         'inputs (bounded by the 4-ulp comparison); libm in xyz/_from_xyz.',
-   technique='Coq proof (fuelled loops proved total, orbit characterisation, uniqueness; trigonometric periodicity over R) + in-Coq correspondence with an exactness guard',
+   technique='Coq proof (fuelled loops proved total, orbit characterisation, uniqueness; trigonometric periodicity over R) + in-Coq correspondence with an exactness guard + translator tie (Coordinate.__init__ while-loops as condition/step, __eq__, __hash__)',
    ref='5/C08, 9')
 CLAIMED['C13'] = dict(
    text='PARTIAL. Machine-checked proof (token level: keyword, Z/M marker, nested coordinate tuples; any number of parts, holes, vertices) that reading what was written with the '
@@ -204,7 +203,7 @@ CLAIMED['C13'] = dict(
         'OBSERVED on every generated shape (no theorem).',
    note='Trusted: Coq kernel + vm_compute; gen_wkt.py; WktM mirrors the assembly loops (correspondence); str(float)/float() are inverse on the lexical class the grammar '
         'accepts (assumed at token level, observed per case); Shapely/GEOS for the independent-reader clause. No axioms.',
-   technique='Coq proof (round trip by induction over parts/holes/vertices, gate soundness, rejection) + regex translator tie + in-Coq correspondence incl. all single-character corruptions',
+   technique='Coq proof (round trip by induction over parts/holes/vertices, gate soundness, rejection) + regex translator tie + in-Coq correspondence incl. all single-character corruptions + translator tie for the writers, readers and dispatch (46 GenEq lemmas)',
    ref='5/C13, 9')
 CLAIMED['C14'] = dict(
    text='Machine-checked proof about an executable model of to_geojson / from_geojson / parse_geojson / the GeoPolygon constructor: the shoelace sum the code computes is '
@@ -216,9 +215,9 @@ CLAIMED['C14'] = dict(
         'pre-D15 code as a regression statement). REFUTED: z = 0 does not survive (finding D14a). Tied to the code by an in-Coq correspondence: 700+ rings through '
         'is_counter_clockwise and the constructor, every vertex-defined kind x dt x properties x Z x k x kwargs exported (also after in-place updates of a previously exported '
         'object), re-imported (dict, twice, text), collections and tracks, a fixed corpus of curved shapes and of 60 edge/malformed documents, the document deep-compared before/after.',
-   note='Trusted: Coq kernel + vm_compute; GeoJsonM/RingM mirror the code (correspondence only); json and datetime.isoformat/fromisoformat are inverse (stdlib, observed per case); '
+   note='Trusted: Coq kernel + vm_compute; GeoJsonM/RingM mirror the code (translator tie, DESIGN 9.6, + correspondence); json and datetime.isoformat/fromisoformat are inverse (stdlib, observed per case); '
         'quarter-degree grid makes the float shoelace exact. M values are outside the property. No axioms.',
-   technique='Coq proof (shoelace induction, constructor normalisation, per-kind round trip, purity as state passing) + in-Coq correspondence incl. export-after-update histories',
+   technique='Coq proof (shoelace induction, constructor normalisation, per-kind round trip, purity as state passing) + in-Coq correspondence incl. export-after-update histories + translator tie for is_counter_clockwise, GeoPolygon.__init__ and the export side (49 GenEq lemmas)',
    ref='5/C14, 9')
 CLAIMED['C19'] = dict(
    text='PARTIAL. Machine-checked proof over all rational coordinates of an exact model of to_dms / from_dms / to_qdms / from_qdms / round_half_up: DMS fields are in range '
@@ -230,8 +229,8 @@ CLAIMED['C19'] = dict(
         'inputs, hand-made tuples and digit strings; the float product abs(dd)*3600 enters as the rational it evaluates to with a half-ulp obligation checked in Coq; '
         "Python '.2f' formatting validated on its whole finite domain). NOT decided by proof: MGRS (1.5 m) and pyproj (1 m) round trips - compiled third-party numerics, "
         'exercised on fixed corpora (UTM and UPS latitudes, 5 CRSs) only.',
-   note='Trusted: Coq kernel + vm_compute; FormatM mirrors the code (correspondence only); harness. mgrs and pyproj are outside the model. No axioms.',
-   technique='Coq proof (exact rational rounding arithmetic, digit-string read/write inverse) + in-Coq correspondence; fixed corpora for MGRS/pyproj',
+   note='Trusted: Coq kernel + vm_compute; FormatM mirrors the code (translator tie, DESIGN 9.6, + correspondence); harness. mgrs and pyproj are outside the model. No axioms.',
+   technique='Coq proof (exact rational rounding arithmetic, digit-string read/write inverse) + in-Coq correspondence; fixed corpora for MGRS/pyproj + translator tie (round_half_up, DMS/QDMS converters, projection/MGRS glue: 34 GenEq lemmas)',
    ref='5/C19, 9')
 CLAIMED['C20'] = dict(
    text='PARTIAL. The third-party codecs (pyshp binary I/O and its __geo_interface__, pandas/Shapely/GEOS, fastkml/pygeoif) cannot be modelled; what is modelled and '
@@ -247,10 +246,10 @@ CLAIMED['C20'] = dict(
         'Shapely 2 rejected) was repaired in /repo and is now a proved round trip. Tied to the code by an in-Coq correspondence on 480-540 (quick) real archive / frame / folder round trips per run: Coq checks that the writer glue '
         'equals what the codec stored, that the contract instance holds on what the codec returned, and that the reader glue on the observed codec output equals the implementation '
         'shape; an independent Python oracle evaluates the property itself.',
-   note='Trusted: Coq kernel + vm_compute; ArchiveM mirrors the glue (correspondence only); the codec contracts are premises of the theorems and are CHECKED per case, not proved; '
+   note='Trusted: Coq kernel + vm_compute; ArchiveM mirrors the glue (translator tie, DESIGN 9.6, + correspondence); the codec contracts are premises of the theorems and are CHECKED per case, not proved; '
         'C13/C14 models reused. Not covered: binary encoding, pyshp hole grouping on invalid polygons, DBF limits (names > 10 chars, text > 50 chars), pandas dtype inference, '
         'GEOS number formatting, KML text serialisation, M values, mixed Z / no-Z layers (pyshp refuses them). No axioms.',
-   technique='Coq proof of the in-library glue with the codecs as contract-carrying parameters (list partition/order, ring orientation via the C14 shoelace lemmas, reader/writer inverses) + in-Coq correspondence on real round trips that also checks each contract instance',
+   technique='Coq proof of the in-library glue with the codecs as contract-carrying parameters (list partition/order, ring orientation via the C14 shoelace lemmas, reader/writer inverses) + in-Coq correspondence on real round trips that also checks each contract instance + translator tie for the shapefile path and the KML time codec (32 GenEq lemmas)',
    ref='5/C20, 6, 9')
 NOT_YET = {}
 NA = {
